@@ -8,7 +8,8 @@
 From Coq Require Import List NArith Bool.
 From SV Require Import Text.Str Text.Prog Text.Tokenizer.
 From SV Require Import KV.KvBase KV.KvLex KV.KvParse KV.KvSer KV.KvSym KV.KvParseProofs KV.KvRoundtrip KV.KvStrip
-  KV.KvRefine KV.KvDelivery KV.KvExport KV.KvFlags KV.KvLoop KV.KvLoopRef KV.KvLoopProofs KV.KvLoopEquiv KV.KvLoopRoundtrip.
+  KV.KvRefine KV.KvDelivery KV.KvExport KV.KvFlags KV.KvLoop KV.KvLoopRef KV.KvLoopProofs KV.KvLoopEquiv KV.KvLoopRoundtrip
+  KV.KvWriter KV.KvFlagProg KV.KvWProg KV.KvProperty KV.KvNoEsc KV.KvShift.
 Import ListNotations.
 Open Scope N_scope.
 
@@ -274,3 +275,149 @@ Proof. exact (conj forget_push_rejected forget_push_refuted). Qed.
 (** The equivalence check is semantic, not textual: two differently ordered trees are accepted. *)
 Theorem kv_loop_equiv_not_syntactic : ptree_eqb swap_demo_a swap_demo_b = false /\ tree_equiv swap_demo_a swap_demo_b = true.
 Proof. exact tree_equiv_not_syntactic. Qed.
+
+(** * Round 4: the wrapper serialise(), _read_flag and the statement list of _serialise read from the source
+
+    [ps : list serpath]: the execution paths of [Keyvalues.serialise(file=None, *, indent, indent_braces, start_indent)]
+    (which buffer / file every [_serialise] call and [write] goes to, what [getvalue()] reads, what is returned).  On
+    every path accepted by [delivery_ok] the text that reaches the destination -- the caller's file, or the returned
+    string -- is exactly [ser_obj C E o x] (= [serialise_node] / [serialise_doc]), with the right return value, and
+    there is a path for each way of calling. *)
+Theorem serialise_delivery : forall C E ps, delivery_ok ps = true -> forall file_none o x,
+  (forall p, In p ps -> path_text C E o x p = Some (ser_obj C E o x) /\ sp_ret_ok p = true) /\
+  (exists p, In p ps /\ sp_file_none p = file_none /\ sp_ib p = o_indent_braces o).
+Proof. exact delivery_is_writer_text. Qed.
+
+(** serialise(file) writes to the file exactly the string serialise() returns. *)
+Theorem serialise_file_and_returned_text_agree : forall C E ps, delivery_ok ps = true -> forall o x p q,
+  In p ps -> In q ps -> sp_file_none p = true -> sp_file_none q = false ->
+  path_text C E o x p = path_text C E o x q /\ path_text C E o x p = Some (ser_obj C E o x).
+Proof. exact file_and_returned_text_agree. Qed.
+
+(** The offset applied by a pass over the finished text instead of by the write templates (seeded fault c01_6,
+    textwrap.indent): such paths are rejected; on ordinary text the pass gives what the templates give, but a name
+    containing U+001C (written raw inside the quotes; str.splitlines breaks there) comes back with the indent in it. *)
+Theorem kv_roundtrip_postprocessed_indent_refuted :
+  delivery_ok post_serpaths = false /\
+  (let o := {| o_indent := [TAB]; o_indent_braces := true; o_start := [TAB] |} in
+   let k := Leaf [97; 28; 98] [99] in
+   names_ok k = true /\ ws_opts o = true /\
+   parse_kv ref_pcfg ref_escfg (fun _ => false)
+     (indent_lines [TAB] (serialise_node (ref_sercfg (PEsc FName)) ref_escfg (with_start o []) k))
+   = POk [Leaf [97; 28; 9; 98] [99]]).
+Proof. exact (conj post_delivery_rejected post_indent_refuted). Qed.
+
+(** How start_indent enters the text (the positive counterpart of the refutation above).  [shift pre text] puts [pre] in
+    front of every line of [text], a line being what ends at a LINE FEED and nothing else.  For write templates that are
+    sequences of writer lines ([lines_ok]: every line starts with exactly one cur_indent, continues with literal
+    characters other than LF, indent, escaped fields, and ends with a literal LF; the children get cur_indent followed by
+    indents), serialise() with start_indent [s] writes the text of serialise() with the empty start_indent, every line
+    shifted by [s] -- for every tree and every string content, because raw line feeds never occur inside the quotes. *)
+Theorem serialise_start_indent_shifts_writer_lines : forall C E o,
+  esc_ok E = true -> no_lf (o_indent o) = true -> lines_ok C o = true ->
+  forall k, serialise_node C E o k = shift (o_start o) (serialise_node C E (with_start0 o) k).
+Proof. exact serialise_node_shift. Qed.
+
+(** The same for [_serialise] at any cur_indent, with the fact that makes it compose: the text ends in a line feed. *)
+Theorem ser_node_is_shift_of_unindented : forall C E o,
+  esc_ok E = true -> no_lf (o_indent o) = true -> lines_ok C o = true ->
+  forall k cur, ser_node C E o cur k = shift cur (ser_node C E o [] k) /\ closed (ser_node C E o cur k) = true.
+Proof. exact ser_node_shift. Qed.
+
+Theorem start_indent_hypothesis_satisfiable : forall o, lines_ok (ref_sercfg (PEsc FName)) o = true.
+Proof. exact ref_sercfg_lines_ok. Qed.
+
+(** A leaf template with the indent inside the quotes is rejected. *)
+Theorem start_indent_inside_quotes_rejected : forall o,
+  lines_ok (ref_sercfg' [PLit [34]; PVar VCurIndent; PEsc FName; PLit [34; 32; 34]; PEsc FValue; PLit [34; 10]]) o = false.
+Proof. exact indent_inside_quotes_rejected. Qed.
+
+(** [fp : ftree]: [_read_flag] executed symbolically.  Every tree accepted by [flagprog_ok] computes [read_flag] of
+    KV/KvFlags.v for every flag text, mapping, default table and casefold function: the hand model of [_read_flag] is
+    tied to the source by this proof plus the translator (before: by sampled runs only). *)
+Theorem read_flag_program_is_model : forall fp, flagprog_ok fp = true -> forall casefold flags defaults f,
+  eval_ftree casefold flags defaults f fp = Some (read_flag casefold flags defaults f).
+Proof. exact flagprog_is_read_flag. Qed.
+
+(** A [_read_flag] that notices the '!' but looks the flag up with it: rejected, and wrong on "!x" with {x: True}. *)
+Theorem read_flag_keep_bang_refuted :
+  flagprog_ok keep_bang_flagprog = false /\
+  eval_ftree (fun s => s) [([120], true)] [] [33; 120] keep_bang_flagprog = Some true /\
+  read_flag (fun s => s) [([120], true)] [] [33; 120] = false.
+Proof. exact (conj keep_bang_rejected keep_bang_refuted). Qed.
+
+(** [W : wprog]: the statements of [_serialise] in order (write / child loop / store / mutating call; the translator
+    fails closed on anything else, so the program is the whole writer).  A store replaces the node by [upd node] for an
+    arbitrary [upd].  "Serialisation never changes the tree it is given": a program without store instructions returns
+    the tree it was given -- for every [upd], tree, cur_indent and recursion depth. *)
+Theorem writer_program_leaves_tree_unchanged : forall C E o W upd, wprog_pure W = true ->
+  forall fuel cur k, fst (wexec C E o W upd fuel cur k) = k.
+Proof. exact wexec_pure_tree. Qed.
+
+(** ... and a program whose writes are the templates of the writer model writes the model's text. *)
+Theorem writer_program_writes_model_text : forall C E o W upd, wprog_text_ok C W = true ->
+  forall fuel k cur, (kv_depth k <= fuel)%nat -> wexec C E o W upd fuel cur k = (k, ser_node C E o cur k).
+Proof. exact wexec_text. Qed.
+
+Theorem writer_program_with_store_rejected : wprog_pure storing_wprog = false.
+Proof. exact storing_wprog_rejected. Qed.
+
+(** allow_escapes=False (the C03 tokenizer model with the option off + the token loop; compared with the implementation
+    on every run, no general theorem): the round trip does not hold under it -- a tab comes back as backslash + t, a
+    quote ends the string early. *)
+Theorem kv_roundtrip_no_escapes_refuted :
+  parse_kv_reader_noesc ref_pcfg default_popts ref_tables (fun _ => false) 60 60
+    (chk_of_str (ref_text (Leaf [97] [120; 9; 121]))) = POk [Leaf [97] [120; 92; 116; 121]] /\
+  parse_kv_reader_noesc ref_pcfg default_popts ref_tables (fun _ => false) 60 60
+    (chk_of_str (ref_text (Leaf [97] [120; 34; 121]))) = PErr EMultipleNames.
+Proof. exact (conj noesc_tab_refuted noesc_quote_refuted). Qed.
+
+(** * THE WHOLE PROPERTY in one statement, every hypothesis visible (all nine are decidable conditions on objects
+    regenerated from the source, discharged in the kernel by the check on every run).
+
+    For every tree [x] (named node or root document), whitespace-only indent / start_indent, both brace styles, every
+    setting of newline_keys / newline_values / single_line, every flags mapping / default table / casefold function,
+    on EVERY execution path [p] of serialise() (file given or not): the path delivers a text [txt] with the right
+    return value; [txt] is the writer model's text and the text the instruction program writes; running the writer
+    leaves the tree unchanged; parsing [txt] with the regenerated token loop and the regenerated _read_flag gives the
+    tree back (same shape, order, exact names and values, no error); so does parsing it through the tokenizer reader
+    model however it is cut into chunks; and for any other whitespace-only option set the token stream is the same and
+    the text with the blanks outside quotes deleted is a function of the tree alone. *)
+Theorem c01_property : forall C E P T F TB ps fp W,
+  cfg_ok C = true -> esc_ok E = true -> pcfg_ok P = true -> loop_ok T F P = true -> tables_match TB E = true ->
+  delivery_ok ps = true -> flagprog_ok fp = true -> wprog_pure W = true -> wprog_text_ok C W = true ->
+  forall casefold flags defaults O o x p,
+    po_single_block O = false -> ws_opts o = true ->
+    po_newline_keys O || obj_names_ok x = true -> po_newline_values O || obj_values_ok x = true ->
+    In p ps ->
+    let flag := flag_of fp casefold flags defaults in
+    exists txt,
+      (path_text C E o x p = Some txt /\ sp_ret_ok p = true) /\
+      (txt = ser_obj C E o x /\
+       forall upd fuel k cur, (kv_depth k <= fuel)%nat -> snd (wexec C E o W upd fuel cur k) = ser_node C E o cur k) /\
+      (forall upd fuel k cur, fst (wexec C E o W upd fuel cur k) = k) /\
+      parse_kv_tree T F P O E flag txt = POk (obj_doc x) /\
+      (forall cs n f, concat cs = txt -> (length txt < n)%nat -> (length txt < f)%nat ->
+         parse_kv_reader P O TB flag n f (chk_of_chunks cs) = parse_kv_tree T F P O E flag txt) /\
+      (forall o2, ws_opts o2 = true ->
+         lex_all E txt = lex_all E (ser_obj C E o2 x) /\ strip_blanks txt = obj_canon E x) /\
+      (forall s, flag s = read_flag casefold flags defaults s).
+Proof. exact whole_property. Qed.
+
+(** There is a path for each way of calling serialise(), so [c01_property] is not vacuous in [p] ... *)
+Theorem c01_property_paths_exist : forall ps, delivery_ok ps = true -> forall file_none o,
+  exists p, In p ps /\ sp_file_none p = file_none /\ sp_ib p = o_indent_braces o.
+Proof. exact (whole_property_paths_exist (ref_sercfg (PEsc FName)) ref_escfg). Qed.
+
+(** ... the flag predicate in it is [_read_flag] as modelled by KV/KvFlags.v ... *)
+Theorem c01_property_flags : forall fp, flagprog_ok fp = true -> forall cf fl df s,
+  flag_of fp cf fl df s = read_flag cf fl df s.
+Proof. exact flag_of_read_flag. Qed.
+
+(** ... and today's reference objects satisfy all nine hypotheses together (one [E] for all of them). *)
+Theorem c01_property_hypotheses_satisfiable :
+  cfg_ok (ref_sercfg (PEsc FName)) = true /\ esc_ok ref_escfg = true /\ pcfg_ok ref_pcfg = true /\
+  loop_ok ref_ptree ref_pfinal ref_pcfg = true /\ tables_match ref_tables ref_escfg = true /\
+  delivery_ok ref_serpaths = true /\ flagprog_ok ref_flagprog = true /\
+  wprog_pure (ref_wprog (PEsc FName)) = true /\ wprog_text_ok (ref_sercfg (PEsc FName)) (ref_wprog (PEsc FName)) = true.
+Proof. exact whole_property_hypotheses_satisfiable. Qed.
